@@ -70,6 +70,72 @@ def record_random(chk, cases, n_per_class):
     return events
 
 
+def handoff(chk, cases):
+    """The property speaks of the CDB *handed to the transport*: a sample of the spec cases of every
+    class is executed on both transports over the stand-in bindings and the bytes the binding received
+    are compared with the specification's CDB.  Each is preceded by a construction of the same class
+    that fails half way (one argument None), which must leave nothing behind."""
+    import os
+    from ..core import bindings
+    from ..core.lib import mod
+    fs, fi = bindings.install(True, True)
+    d = bindings.shm_dir("c01")
+    path = os.path.join(d, "sg0")
+    open(path, "wb").close()
+    devs = {"sgio": mod("pyscsi.pyscsi.scsi_device").SCSIDevice(path),
+            "iscsi": mod("pyscsi.pyiscsi.iscsi_device").ISCSIDevice("iscsi://127.0.0.1:3260/iqn.t/0", "iqn.i")}
+    seen, n = {}, 0
+    try:
+        for c in cases:
+            if not c["ctor"] or c["refuse"] or c["dinlen"] > 70000 or c["doutlen"] > 70000:
+                continue
+            name = c["cls"]
+            seen[name] = seen.get(name, 0) + 1
+            if seen[name] > 4 and seen[name] % (40 if chk.quick else 5):
+                continue
+            a = cmds.int_args(c["a"])
+            for s in sorted(c["sets"]):
+                if cmds.opcode(name, s) is None:
+                    continue
+                for k in [x for x in sorted(a) if x not in ("blocksize", "tl", "nb", "ndob", "#datalen")][-1:]:
+                    try:
+                        cmds.construct(name, s, dict(a, **{k: None}), c["ph"])   # fails (or not): result unused
+                    except Exception:
+                        pass
+                cmd, exc, passed = cmds.construct(name, s, a, c["ph"])
+                if cmd is None:
+                    continue
+                for tr in ("sgio", "iscsi"):
+                    fs.reset(None)
+                    fi.reset(None)
+                    try:
+                        devs[tr].execute(cmd)
+                        got = fs.CALLS[-1]["cdb"] if tr == "sgio" else [x[1] for x in fi.LOG if x[0] == "command"][-1]["cdb"]
+                        got = list(got)
+                    except Exception as ex:
+                        got = "raised " + type(ex).__name__
+                    n += 1
+                    if got != c["cdb"]:
+                        cl = "CdbLength" if isinstance(got, str) or len(got) != len(c["cdb"]) else "WireFormat"
+                        chk.violation({"clause": cl, "cls": name, "set": s, "args": a, "field": "handed to " + tr,
+                                       "detail": {"expected": c["cdb"], "handed_to_binding": got},
+                                       "what": "CDB the %s binding received" % tr},
+                                      dedup=(cl, name, s, tr, "handoff"))
+                chk.ev.case(("handoff", name, s, str(sorted(a.items()))))
+    finally:
+        for dv in devs.values():
+            try:
+                dv.close()
+            except Exception:
+                pass
+        try:
+            os.unlink(path)
+            os.rmdir(d)
+        except OSError:
+            pass
+    chk.ev.cov["handed_to_bindings"] = n
+
+
 def run(chk, replay=None):
     chk.ev.assumptions += ASSUME
     if replay is not None:
@@ -78,6 +144,7 @@ def run(chk, replay=None):
     cases = cc.spec_cases(chk, "c01mc")
     ev1 = cc.replay(chk, cases, want)
     chk.ev.sample({"spec_case": {k: cases[len(cases) // 3][k] for k in ("cls", "a", "cdb", "ctor")}})
+    handoff(chk, cases)
     events = record_random(chk, cases, 40 if chk.quick else 1500)
     events = ev1 + events
     cc.judge(chk, events, want, "c01tr")
@@ -86,7 +153,8 @@ def run(chk, replay=None):
                           "bits, max minus single bits}) + all flag combinations + ATA modes, each through the real "
                           "constructor on every command set that offers the class (or through marshall_cdb when the "
                           "coupled buffer would exceed 16 MiB); random in-range argument tuples recorded and judged by "
-                          "Trace_Command. distinct by (class, set, arguments); non-trivial = some argument non-zero.")
+                          "Trace_Command; a sample of the spec cases of every class executed on both transports and the bytes the "
+                          "binding received compared with the specification's CDB. distinct by (class, set, arguments); non-trivial = some argument non-zero.")
 
 
 if __name__ == "__main__":
